@@ -20,9 +20,10 @@ With(f, k, v) == [x \in DOMAIN f \cup {k} |-> IF x = k THEN v ELSE f[x]]
 Base   == [C |-> "US", ST |-> "WA", O |-> "Acme", CN |-> "web"]
 Rich   == [C |-> "US", ST |-> "WA", O |-> "Acme", CN |-> "web", OU |-> "Build", L |-> "Seattle", STREET |-> "1 Main St"]
 Comma  == [C |-> "US", ST |-> "WA", O |-> "Acme, Inc", CN |-> "web"]
+Specials == [C |-> "US", ST |-> "WA", O |-> "R+D; \"Ops\" <a>", CN |-> "build+release"]    \* every character that needs escaping in a DN string
 Inter  == [C |-> "US", ST |-> "WA", O |-> "Acme", CN |-> "Acme Intermediate CA"]
 Root   == [C |-> "US", ST |-> "WA", O |-> "Acme", CN |-> "Acme Root CA"]
-Leaves == {[ok |-> TRUE, dn |-> Base, shape |-> "base"], [ok |-> TRUE, dn |-> Rich, shape |-> "rich"], [ok |-> TRUE, dn |-> Comma, shape |-> "comma"],
+Leaves == {[ok |-> TRUE, dn |-> Base, shape |-> "base"], [ok |-> TRUE, dn |-> Rich, shape |-> "rich"], [ok |-> TRUE, dn |-> Comma, shape |-> "comma"], [ok |-> TRUE, dn |-> Specials, shape |-> "specials"],
            \* a multi-valued RDN of DISTINCT attribute types is an ordinary attribute map once the certificate is parsed
            [ok |-> TRUE, dn |-> With(Base, "OU", "MultiValued"), shape |-> "multiRDN"], [ok |-> FALSE, dn |-> Base, shape |-> "dupAttr"],
            [ok |-> TRUE, dn |-> With(Base, "O", "Acme "), shape |-> "paddedO"],      \* a value that ends with a blank
